@@ -36,9 +36,23 @@ func init() {
 	register("opmatch", func(t *tokens) string {
 		n := t.int()
 		opcs := make([]vOpcoder, 0, n)
+		interned := map[string][]byte{}
+		intern := func(b []byte) []byte {
+			if len(b) == 0 {
+				return b
+			}
+			if x, ok := interned[string(b)]; ok {
+				return x
+			}
+			interned[string(b)] = b
+			return b
+		}
 		for i := 0; i < n; i++ {
-			bs := t.hex()
-			mask := t.hex()
+			// Equal byte strings of one line are ONE slice (a table of
+			// patterns often re-uses a mask, or takes windows of one
+			// array): building the matcher must not change them.
+			bs := intern(t.hex())
+			mask := intern(t.hex())
 			opcs = append(opcs, vOpcoder{idx: i, opc: opcode.Opcode{Bytes: bs, Mask: mask}})
 		}
 		k := t.int()
